@@ -25,10 +25,15 @@ class TimeoutFamily:
         if rng.random() < 0.5:
             ons.sort(key=ms, reverse=rng.random() < 0.5)
         rules = []
+        nested = []
         for i, on in enumerate(ons):
             steps = [{'id': f't{i}_0', 'acts': [{'id': f'ta{i}', 'uses': rng.choice([MSG, IRQ]), 'key': f'tk{i}'}]}]
             if rng.random() < 0.3:
                 steps.append({'id': f't{i}_1'})
+            if rng.random() < 0.3:
+                # a nested timed task: the act of the timeout step carries a rule with the SAME `on` text
+                steps[0]['acts'][0].update(uses=IRQ, timeout=[{'on': on, 'steps': [{'id': f'n{i}_0', 'acts': [{'id': f'na{i}', 'uses': MSG, 'key': f'nk{i}'}]}]}])
+                nested.append((f'ta{i}', on, f'n{i}_0'))
             rules.append({'on': on, 'steps': steps})
         timed_act = {'id': 'a1', 'uses': IRQ, 'key': 'k1'}
         s1 = {'id': 's1', 'acts': [timed_act]}
@@ -48,25 +53,33 @@ class TimeoutFamily:
         ops = [{'op': 'start', 'mid': 'm1', 'vars': {'pid': 'p1'}}, {'op': 'quiesce'}, {'op': 'snapshot', 'level': 'live'}]
         for i, t in enumerate(times):
             if answer_at == i:
-                ops += [{'op': 'act', 'target': {'pid': 'p1', 'key': 'k1', 'state': 'interrupted'}, 'action': rng.choice(['next', 'next', 'skip', 'error']), 'options': {'ecode': 'e1'}}, {'op': 'quiesce'}, {'op': 'snapshot', 'level': 'live'}]
+                ops += [{'op': 'act', 'target': {'pid': 'p1', 'key': 'k1', 'state': 'interrupted'}, 'action': rng.choice(['next', 'next', 'skip', 'error', 'submit', 'remove']), 'options': {'ecode': 'e1'}}, {'op': 'quiesce'}, {'op': 'snapshot', 'level': 'live'}]
             ops += [{'op': 'advance_to', 'target': target, 'ms': t}]
             if opts.get('evict', True) and rng.random() < 0.25:
                 ops.append({'op': 'evict'})          # the process is not cached when the tick comes
             ops += [{'op': 'tick'}, {'op': 'snapshot', 'level': 'live'}]
         if answer_at == len(times):
             ops += [{'op': 'act', 'target': {'pid': 'p1', 'key': 'k1', 'state': 'interrupted'}, 'action': 'next'}, {'op': 'quiesce'}]
+        for (_, on_, _) in nested:
+            ops += [{'op': 'advance', 'ms': ms(on_) + 700}, {'op': 'tick'}, {'op': 'snapshot', 'level': 'live'}]
         ops += [{'op': 'advance', 'ms': 1000}, {'op': 'tick'}, {'op': 'tick'}, {'op': 'snapshot', 'level': 'live'}]
         rt = rng.choice([{'flavor': 'current'}, {'flavor': 'current', 'chaos': {'max_yields': 3, 'seed': rng.randrange(1, 1 << 40)}}, {'flavor': 'multi', 'workers': 2}])
         sc = {'id': '', 'family': 'timeout', 'sched': rt['flavor'], 'runtime': rt, 'engine': {'store': 'mem', 'keep_processes': True}, 'models': [json.dumps(wf)], 'responder': {'rules': []}, 'ops': ops}
-        return {'scenarios': [sc], 'meta': {'wf': wf, 'level': level, 'ons': ons, 'times': times, 'answer_at': answer_at}, 'digest': digest([wf, times, answer_at]), 'nontrivial': True}
+        return {'scenarios': [sc], 'meta': {'wf': wf, 'level': level, 'ons': ons, 'times': times, 'answer_at': answer_at, 'nested': nested}, 'digest': digest([wf, times, answer_at]), 'nontrivial': True}
 
     def judge(self, c, opts, obs):
-        out = []
         h, sc, m = c['hist'][0], c['scenarios'][0], c['meta']
+        out = []
+        timed = [('s1' if m['level'] == 'step' else 'a1', m['level'], m['ons'], {f't{i}_0': on for i, on in enumerate(m['ons'])})]
+        for (tn, on_, fs) in m.get('nested') or []:
+            timed.append((tn, 'nested-act', [on_], {fs: on_}))
+        for nid, lvl, ons, first_step in timed:
+            out += self.judge_task(h, sc, dict(m, level=lvl), nid, ons, first_step, obs)
+        return out
+
+    def judge_task(self, h, sc, m, nid, ons, first_step, obs):
+        out = []
         sid = sc['id']
-        ons = m['ons']
-        nid = 's1' if m['level'] == 'step' else 'a1'
-        first_step = {f't{i}_0': on for i, on in enumerate(ons)}
         fired = collections.defaultdict(list)     # rule -> [create seq]
         for e in h.creates:
             if e['nid'] in first_step:
